@@ -133,6 +133,7 @@ class Sim:
         self.deadlock = False
         self.step_limit = False
         self.aborting = False
+        self.end_step: int | None = None
         self.frozen = False  # set when a livelock was cut short: nothing after it is history
         self.livelock: int | None = None
         self.t0 = 0.0
@@ -171,7 +172,11 @@ class Sim:
             t = round(self.now(), 6)
         except Exception:
             t = -1.0
-        self.trace.append((self.seq, self.step, t, self.task(), kind, data))
+        # what the backend does after the workload has ended (closing leaked async generators,
+        # shutting the loop down) takes a number of steps that is not part of the run: such
+        # late observations are kept, stamped with the step at which the workload ended
+        step = self.step if self.end_step is None else self.end_step
+        self.trace.append((self.seq, step, t, self.task(), kind, data))
         return self.seq
 
     def fault(self, kind: str, n: int = 1) -> None:
@@ -397,6 +402,7 @@ def run_sim(sim: Sim, main: Callable[[Sim], Any]) -> None:
                     # what the backend does after the workload has ended (shutting down
                     # leaked async generators, cancelling the watchdog) is not part of the run
                     sim.trace_steps = False
+                    sim.end_step = sim.step
                 tg.cancel_scope.cancel()
         except Abort:
             pass
